@@ -11,7 +11,7 @@ OP_CHARS = "!%&()*+,-./:;<=>@[]^{|}~"
 
 DIGITS = ["0", "1", "7", "9", "10", "007", "1_0", "1__0", "1_", "_1", "0_7", "00_0", "123"]
 NUMBERS_VALID = [
-    "0", "1", "42", "1_000", "0x1F", "0Xab_cd", "0o17", "0O7_7", "0b101", "0B1_0", "00", "0_0", "000",
+    "0x_ff", "0B_1", "0o_644", "0X_A_b", "0b_1_0", "0", "1", "42", "1_000", "0x1F", "0Xab_cd", "0o17", "0O7_7", "0b101", "0B1_0", "00", "0_0", "000",
     "1.", ".5", "1.5", "0.0", "1e5", "1E-5", "1e+5", "1.5e10", "1_0.0_1e-1_0", ".5e1", "1.e3", "0e0", "0.e0", "00.5", "09.5", "09e1",
     "1j", "1J", "1.5j", "1e3j", ".5J", "0j", "1_0j", "09j", "1.j", "1.e-3J", "0xfj",
 ]
